@@ -16,13 +16,14 @@ func init() { registry["C19"] = propC19 }
 func propC19() *Property {
 	return &Property{
 		ID:          "C19",
-		Explanation: "Static dominance and table-agreement rules on package config and its consumers. Decided: (R1) config.parse returns a configuration only for an empty location, a missing file, or a decode without error AND without undecoded keys; defaults are stored before decoding into the same object; the package initialiser exits non-zero after a diagnostic on every error of parse and postprocess; (R2) for every field of Style.Colors (enumerated from the type) postprocess stores hexToAnsi of that same field with the error checked; hexToAnsi slices under len == 7 and parses each pair base 16 with the error checked; (R3) every read of a config.Parsed field anywhere in the module is in the consumer table, and for each consumer assumption (non-empty hook, positive cache size, non-negative preload amount, positive timeout) package config contains a comparison of that field whose failing edge reaches only error returns and which rejects every violating value. A new consumer without a table entry fails the check. (R4) every multiplication or shift of a value read from the configuration object by a constant inside package config is dominated by an upper bound that keeps the product inside its type. (R6 = C20.R2) the hook list that is run is a full private copy of the list that was validated, element 0 the program. (R7 = C11.R7) a feed with no sources is an accepted configuration and ends at once. (R3, addition) arithmetic on a validated value on its way to its consumer counts as a new consumer. Not decided: TOML parsing itself; that two hex digits parse to 0..255 (library semantics).",
+		Explanation: "Static dominance and table-agreement rules on package config and its consumers. Decided: (R1) config.parse returns a configuration only for an empty location, a missing file, or a decode without error AND without undecoded keys; defaults are stored before decoding into the same object; the package initialiser exits non-zero after a diagnostic on every error of parse and postprocess; (R2) for every field of Style.Colors (enumerated from the type) postprocess stores hexToAnsi of that same field with the error checked; hexToAnsi slices under len == 7 and parses each pair base 16 with the error checked; (R3) every read of a config.Parsed field anywhere in the module is in the consumer table, and for each consumer assumption (non-empty hook, positive cache size, non-negative preload amount, positive timeout) package config contains a comparison of that field whose failing edge reaches only error returns and which rejects every violating value. A new consumer without a table entry fails the check. (R4) every multiplication or shift of a value read from the configuration object by a constant inside package config is dominated by an upper bound that keeps the product inside its type. (R6 = C20.R2) the hook list that is run is a full private copy of the list that was validated, element 0 the program. (R7 = C11.R7) a feed with no sources is an accepted configuration and ends at once. (R3, addition) arithmetic on a validated value on its way to its consumer counts as a new consumer. (R8 = C20.R6) the hook is not rewritten between the file and its consumers. Not decided: TOML parsing itself; that two hex digits parse to 0..255 (library semantics).",
 		Assumptions: []string{"BurntSushi/toml reports unknown keys through MetaData.Undecoded", "strconv.ParseUint(s, 16, 0) of two characters is 0..255 or an error"},
 		Rules: []Rule{
 			{ID: "C19.R1", Title: "strict decoding, defaults first, exit on every error", Floor: 8, Run: c19R1},
 			{ID: "C19.R2", Title: "every colour is converted by hexToAnsi with its error checked", Floor: 7, Run: c19R2},
 			{ID: "C19.R3", Title: "every consumer assumption about a config value is validated", Floor: 15, Run: c19R3},
 			{ID: "C19.R4", Title: "arithmetic on validated settings cannot overflow", Floor: 0, Run: c19R4},
+			{ID: "C19.R8", Title: "what is validated at start-up is what is configured: the hook is not rewritten (expanded, trimmed, filtered) between the file and its consumers (same instances as C20.R6)", Floor: 1, Run: c20R6},
 			{ID: "C19.R7", Title: "a feed configured with no sources is an accepted configuration and simply ends: the selection step of the splicer looks at sources only inside its loop over them (same instances as C11.R7)", Floor: 3, Run: c11R7},
 			{ID: "C19.R6", Title: "the program of the media hook exists because the list that was validated at start-up is the list that is run: argv is a full private copy of config.Parsed.Media.Hook, element 0 the program (same instances as C20.R2)", Floor: 2, Run: c20R2},
 			{ID: "C19.R5", Title: "an accepted configuration cannot crash the feed it names: source k of the feed is input k, for any number of inputs (same instances as C11.R8)", Floor: 1, Run: c11R8},
